@@ -7,7 +7,7 @@ ACTIONS = ["Init", "RunNsec", "RunNsec3", "BmAddType"]
 
 META = {
     "category": "model_checking",
-    "text": "Denial.tla defines the NSEC and NSEC3 chains of a zone declaratively (authoritative names, cut rule, empty non-terminals, opt-out, cyclic successor over canonical / hash order) and transcribes the single-pass generators generate_nsecs / generate_nsec3s (cut, prev, ENT stack) and the RtypeBitmapBuilder; TLC checks over all zones of apex + up to 2 further owner names from 13 (quick) / 17 (thorough) spelled names and 4 / 5 type sets (case variants, wildcards, delegations with glue, occluded data, shared ENTs, names outside the zone) plus hand-picked larger zones that pass = declarative chain, the chain is closed, and every absent (name, type) has a proof; every explored zone and add-sequence is replayed into the real generators and bitmap builder, NSEC3 owner hashes are matched against independently evaluated iterated SHA-1 terms and hash order / closure checked on those; recorded chains for random larger zones are validated by TLC.",
+    "text": "Denial.tla defines the NSEC and NSEC3 chains of a zone declaratively (authoritative names, cut rule, empty non-terminals, opt-out, cyclic successor over canonical / hash order) and transcribes the single-pass generators generate_nsecs / generate_nsec3s (cut, prev, ENT stack) and the RtypeBitmapBuilder; TLC checks over all zones of apex + up to 2 further owner names from 13 (quick) / 17 (thorough) spelled names and 4 / 5 type sets (case variants, wildcards, delegations with glue, occluded data, shared ENTs, names outside the zone) plus hand-picked larger zones that pass = declarative chain, the chain is closed, and every absent (name, type) has a proof; every explored zone and add-sequence is replayed into the real generators and bitmap builder, NSEC3 owner hashes are matched against independently evaluated iterated SHA-1 terms and hash order / closure checked on those; MC_ZoneBuild.tla models the workflow on one SortedRecords collection (assembly by From<Vec> / extend / insert in batches that repeat records, generate, extend with the generated NSECs, generate again: the collection stays the sorted duplicate-free content and the chain a function of it); limit shapes (255-octet owner names, 220-222-octet apex names) and every order of the GenerateNsec3Config setters are part of the replayed cases; recorded chains for random larger zones are validated by TLC.",
     "note": "Trusted: TLC, ring SHA-1, the transcription of RFC 4034/4035/5155/9077 in Denial.tla. The NSEC3 hash is uninterpreted in the model (a few hash orders per zone); real hash order enters through the replay and the recorded traces. Occlusion by DNAME is not modelled. Owner-name case of generated records is compared case-insensitively. The opt-out flag is expected on every NSEC3 RR when opt-out is configured.",
     "technique": "TLA+ spec (Denial.tla) + TLC exhaustive; spec->impl case replay with symbolic hash terms; impl->spec trace validation",
     "design_ref": "DESIGN.md §4 C13",
@@ -36,6 +36,14 @@ def run(ctx):
     rc, out, err, _ = ctx.run_bin("replay_dnssec", ["--selftest-perturb"], stdin_path=head)
     ctx.selftest("perturbed expectation is reported by replay_dnssec", "FAIL " in out)
     ctx.replay_cases("replay_dnssec", cases, label="denial")
+    # the sign-zone workflow as a machine over one SortedRecords collection
+    wcases = os.path.join(ctx.work, "zonebuild-cases.ndjson")
+    wf = ctx.tlc("MC_ZoneBuild", "MC_ZoneBuild", workers=2, label="mc-zonebuild", cases_to=wcases)
+    ctx.require_ok(wf, "MC_ZoneBuild")
+    ctx.require_actions(wf, ["Init", "BuildFrom", "BuildExtend", "BuildInsert", "GenExtend", "Gen"])
+    if wf.ncases < 20:
+        raise vlib.ToolError("workflow model produced too few behaviours")
+    ctx.replay_cases("replay_dnssec", wcases, label="zonebuild")
     # I->S
     n_traces = 4 if thorough else 2
     for i in range(n_traces):
